@@ -77,6 +77,14 @@ def translate_source():
     except Exception as e:
         open(out3, 'w').write('/-! source-level translation of the CfgKeyData methods failed on this tree -/\n')
         status['CfgItem'] = 'untranslatable: translator failed (' + type(e).__name__ + ')'
+    # and the field codec (types.py)
+    out4 = os.path.join(LEAN, 'UbxModel', 'Gen', 'SrcTypes.lean')
+    try:
+        r = sh([PY, os.path.join(ROOT, 'tools', 'pysrc2lean_types.py'), REPO, out4], timeout=120)
+        status['Types'] = r.stdout.strip().splitlines()[-1]
+    except Exception as e:
+        open(out4, 'w').write('/-! source-level translation of types.py failed on this tree -/\n')
+        status['Types'] = 'untranslatable: translator failed (' + type(e).__name__ + ')'
     return status
 
 
@@ -87,6 +95,7 @@ SRC_THEOREMS = {
     'NmeaParser': ['nmea_to_bin', 'nmea_step', 'nmea_process', 'nmea_restart'],
     'CfgKeyData': ['key_bits', 'key_group', 'key_item', 'key_bytes', 'key_header'],
     'CfgItem': ['cfg_pack_value', 'cfg_pack_keyid', 'cfg_pack', 'cfg_unpack_value', 'cfg_unpack', 'cfg_from_key'],
+    'Types': ['item_pack', 'item_unpack', 'fields_pack', 'fields_unpack'],
     'Server': ['srv_check_poll', 'srv_check_ack_nak', 'srv_check_mga', 'srv_send', 'srv_wait', 'srv_set', 'srv_set_mga',
                'srv_set_mga_other_class', 'srv_fire_and_forget', 'srv_set_retries', 'srv_set_retry_delay', 'srv_poll'],
 }
@@ -97,6 +106,7 @@ TRANSFERS = {   # module -> (classes it needs, theorems)
     'TransferUbx': (['UbxParser', 'Checksum'], ['src_process_chunks', 'src_parser_refines_scanner']),
     'TransferNmea': (['NmeaParser'], ['src_nmea_counts_exactly']),
     'TransferCfg': (['CfgItem', 'CfgKeyData'], ['src_item_roundtrip', 'src_unpack_dichotomy', 'src_pack_rejects_ids']),
+    'TransferTypes': (['Types'], ['generated_tables_known', 'src_decoded_as_prescribed', 'src_encode_after_decode']),
     'TransferServer': (['Server', 'UbxParser'], ['src_set_returns_bounded', 'src_set_mga_returns_bounded', 'src_poll_returns_bounded', 'src_set_result',
                                                  'src_poll_result', 'src_set_kth', 'src_set_like_fresh', 'src_poll_like_fresh', 'src_poll_all_same']),
 }
